@@ -91,6 +91,16 @@ def C01(ctx):
     record_and_validate(ctx, jobs, "TraceBdd", "TraceBdd_C01.cfg")
 
 
+def stress_canonical(ctx, which):
+    """long histories at REAL table sizes: N pseudo-random 6-variable functions printed by TLC (GenStress) with their conjunctions /
+    disjunctions / negations (/ xors) built in ONE canonical builder with default capacities (the unique table grows at 91 751, 183 501, ...
+    nodes): right functions, and same function <=> same pointer."""
+    n = 20000 if ctx.quick else 60000
+    cfg = mkcfg(ctx, "GenStress_%s.cfg" % which, "SPECIFICATION Spec\nCONSTANTS\n  NV = 6\n  N = %d\n  Seed = %d\nCHECK_DEADLOCK FALSE\n" % (n, ctx.seed + 3))
+    gen_and_replay(ctx, "GenStress", cfg, "stressvec", "%d pseudo-random 6-variable functions + and / or / neg in one canonical %s builder at default table sizes" % (n, which),
+                   extra_replay=["--nv", 6, "--which", which, "--seed", ctx.seed], timeout=2400)
+
+
 def C02(ctx):
     ctx.assumptions += [
         "canonicity is judged on truth tables recomputed by TLC from raw node dumps",
@@ -116,6 +126,7 @@ def C02(ctx):
     else:
         jobs = bdd_jobs(ctx, "c02", 48, 5, 300, 5)
     record_and_validate(ctx, jobs, "TraceBdd", "TraceBdd_C02.cfg")
+    stress_canonical(ctx, "bdd")
 
 
 def C16(ctx):
@@ -205,6 +216,7 @@ def C04(ctx):
     # elements after compression), the same result along two routes (9 variables: TLC works on sets of 512 assignments)
     record_and_validate(ctx, [("sdd_wide_%d" % i, ["record", "sdd", "--mode", "wide", "--seed", ctx.seed * 1000 + i, "--segments", 1 if ctx.quick else 2,
                                                    "--nmax", 9]) for i in range(1 if ctx.quick else 6)], "TraceSdd", "TraceSdd_C04.cfg")
+    stress_canonical(ctx, "sdd")
 
 
 def C05(ctx):
